@@ -7,8 +7,13 @@ from concurrent.futures import ThreadPoolExecutor
 VERIF = os.path.dirname(os.path.dirname(os.path.dirname(os.path.abspath(__file__))))
 ALL = ["C01", "C02", "C03", "C04", "C05", "C06", "C07", "C08", "C09", "C11", "C12", "C13", "C14",
        "C15", "C16", "C17", "C18"]
-patch = sys.argv[1]
-props = sys.argv[2:] or ALL
+TIER = "quick"
+argv = sys.argv[1:]
+if "--thorough" in argv:
+    argv.remove("--thorough")
+    TIER = "thorough"
+patch = argv[0]
+props = argv[1:] or ALL
 scratch = tempfile.mkdtemp(prefix="fir-try-")
 try:
     subprocess.check_call(["rsync", "-a", "--exclude", "target", "--exclude", ".git", "/repo/", scratch + "/"])
@@ -18,7 +23,7 @@ try:
         ev = tempfile.mkdtemp(prefix="fir-try-ev-")
         try:
             env = dict(os.environ, FIR_REPO=scratch, FIR_EVIDENCE_DIR=ev)
-            r = subprocess.run([os.path.join(VERIF, "check"), p, "--tier", "quick"], cwd=VERIF, env=env,
+            r = subprocess.run([os.path.join(VERIF, "check"), p, "--tier", TIER], cwd=VERIF, env=env,
                                stdout=subprocess.PIPE, stderr=subprocess.STDOUT, text=True)
             keys = [l.strip() for l in r.stdout.splitlines() if l.strip().startswith("rule=")]
             warn = [l for l in r.stdout.splitlines() if l.startswith("CHECK-")]
